@@ -337,4 +337,16 @@ def r3_10(ctx):
     borrow(ctx, r18_1, "R18.1-3", "R3.10", " [the colour code written is a valid index of the terminal's colour system]")
 
 
-RULES = [r3_1, r3_2, r3_3, r3_4, r3_5, r3_6, r3_7, r3_8, r3_9, r3_10]
+def r3_11(ctx):
+    from .c06 import r6_7
+    from .common import borrow
+    borrow(ctx, r6_7, "R6.7", "R3.11", " [Console._render_buffer writes a segment's text bare when its style is falsy: a style that still carries a link (or an attribute) must not be null, or the hyperlink is lost from the stream - e.g. under NO_COLOR after without_color]")
+
+
+def r3_12(ctx):
+    from .c18 import r18_4
+    from .common import borrow
+    borrow(ctx, r18_4, "R18.4", "R3.12", " [the colour parameters in the stream are the standard ones for the segment's colour: 30-37 / 90-97 split at index 8, 38;5;n, 38;2;r;g;b - a terminal reads a bare 38 as a malformed extended colour]")
+
+
+RULES = [r3_1, r3_2, r3_3, r3_4, r3_5, r3_6, r3_7, r3_8, r3_9, r3_10, r3_11, r3_12]
